@@ -77,3 +77,21 @@ Theorem C03_accepted_means_written : forall c run o s s',
                last (w_hist (o_w s')) r = r /\ w_hist (o_w s') <> [].
 Proof. exact ctl_success_persisted. Qed.
 Print Assumptions C03_accepted_means_written.
+
+(* "The sequence of run states PERSISTED for a run is always a path of the documented run-state machine", read off the ghost history
+   of committed writes (proofs/HistVersions.v, proofs/Determined.v): every committed write of a run is its first write — Initiated —
+   or stands to the write of that run it replaced ([lastrun h1 x]) in a lifecycle edge (or keeps Running / DataDeleted), and a finished
+   run stays finished *)
+From WF Require Import proofs.TokenFacts proofs.HistVersions proofs.Determined.
+Theorem C03_persisted_states_form_a_lifecycle_path : forall c ops, hist_ok ops ->
+  forall h1 x h2, w_hist (fst (run_ops c ops)) = h1 ++ x :: h2 ->
+  match lastrun h1 x with
+  | None => r_state x = RSInitiated
+  | Some p => (lc (r_state p) (r_state x) = true \/ (r_state x = r_state p /\ (r_state p = RSRunning \/ r_state p = RSDataDeleted))) /\
+              (rs_finished (r_state p) = true -> rs_finished (r_state x) = true)
+  end.
+Proof.
+  intros c ops H h1 x h2 E. pose proof (persisted_sequence_facts c ops H h1 x h2 E) as F.
+  destruct (lastrun h1 x) as [p|]; [split; [apply (sf_lifecycle _ _ _ F)|apply (sf_finished _ _ _ F)]|apply F].
+Qed.
+Print Assumptions C03_persisted_states_form_a_lifecycle_path.
